@@ -1,0 +1,20 @@
+//go:build verif
+
+package virtual
+
+// VerifLockIsFree reports whether the mutex of an in-memory
+// prepopulated directory is currently not held. It only exists in
+// builds with the "verif" tag, where it is used after every operation
+// (including every error return) to detect a lock that was leaked.
+// Directories of any other implementation are reported as free.
+func VerifLockIsFree(d PrepopulatedDirectory) bool {
+	i, ok := d.(*inMemoryPrepopulatedDirectory)
+	if !ok {
+		return true
+	}
+	if !i.lock.TryLock() {
+		return false
+	}
+	i.lock.Unlock()
+	return true
+}
